@@ -121,3 +121,49 @@ def driverLine (inp obs : List String) : Bool × Bool × String × String :=
   | _ => (false, false, "bad-line", "")
 
 end Hd.Pool
+
+namespace Hd.Pool
+
+/-- `key=value` observation tokens of the `poolmt` stream -/
+def kv (obs : List String) (k : String) : Option String :=
+  obs.findSome? fun t => match t.splitOn "=" with | [a, b] => if a == k then some b else none | _ => none
+
+/-- `poolmt <seed> <threads> <requests> <cap> <maxIdle> | stranded=… probes=a/b double_use=… cross_origin=… idle_over=… panics=… done=… dropped=…`.
+    The run is not deterministic, so there is no model run to compare with: the observation is judged
+    against what the reachable-state theorems promise for every interleaving – `C03_pending_waiter_waits_for_running_attempt`
+    (with every attempt terminating, nobody hangs), `C02_one_holder`, `C06_request_gets_own_origin`, `C15_idle_bound`. -/
+def mtLine (_inp obs : List String) : Bool × Bool × String × String :=
+  match kv obs "stranded", kv obs "probes", kv obs "double_use", kv obs "cross_origin", kv obs "idle_over", kv obs "panics" with
+  | some st, some pr, some du, some co, some io, some pa =>
+    let probesOk := match pr.splitOn "/" with | [a, b] => a == b | _ => false
+    let cls : List String :=
+      (if st != "0" then ["C03/stranded-under-contention"] else []) ++
+      (if !probesOk then ["C03/probe-stranded-under-contention"] else []) ++
+      (if du != "0" then ["C02/double-use"] else []) ++
+      (if co != "0" then ["C06/cross-origin"] else []) ++
+      (if io != "0" then ["C15/idle-over-limit"] else []) ++
+      (if pa != "0" then ["C17/pool-panic"] else [])
+    (cls.isEmpty, cls.isEmpty, if cls.isEmpty then "-" else ",".intercalate cls, "stranded=0 probes=n/n double_use=0 cross_origin=0 idle_over=0 panics=0")
+  | _, _, _, _, _, _ => (false, false, "pool/unparsable-observation", "")
+
+end Hd.Pool
+
+namespace Hd.Pool
+
+/-- `conn <op> … | <is_open><ready R|P|E><can_share> …` – the leaf contract of hyperdriver's own HTTP/1
+    `HttpConnection`, which the pool model takes as `isOpenC` with `lax = false`: it reports open exactly
+    when it can take a request now, and it cannot be shared. -/
+def connLine (inp obs : List String) : Bool × Bool × String × String :=
+  if obs.length != inp.length || obs.isEmpty then (false, false, "C02/unparsable-observation", "") else
+  let bad := obs.filterMap fun t =>
+    match t.toList with
+    | [o, r, sh] =>
+      if o == '1' && r != 'R' then some "C02/open-but-not-ready"
+      else if o == '0' && r == 'R' then some "C04/ready-connection-reported-closed"
+      else if sh != '0' then some "C02/http1-connection-shareable"
+      else none
+    | _ => some "C02/unparsable-observation"
+  let cls := bad.foldl (fun acc c => if acc.contains c then acc else acc ++ [c]) ([] : List String)
+  (cls.isEmpty, cls.isEmpty, if cls.isEmpty then "-" else ",".intercalate cls, "is_open = (poll_ready = Ready(Ok)), can_share = 0")
+
+end Hd.Pool
